@@ -37,6 +37,8 @@ def run(ctx):
     RR.check_regions(ctx, 'R14.1', quick=(ctx.tier == 'quick'))
     RR.check_quote_agreement(ctx, 'R14.6')
     RL.check_initialisation(ctx, 'R14.3', T)
+    ctx.rule('R14.7', 'the lexer sees the whole input at once: a body cannot be cut at a chunk boundary', floor=3)
+    RL.check_whole_text(ctx, 'R14.7')
     strategy = check_lookup_strategy(ctx, T)
     check_words(ctx, T)
     for name, d in T.kw:
